@@ -6,7 +6,7 @@ cat <<P
 You are helping to evaluate a verification effort by acting as an independent "bug seeder" for the open-source Go project gittuf (a TUF-inspired security layer for Git: signed Reference State Log (RSL) + policy verification).
 
 Your private scratch copy of the repository is a git worktree at: $wt
-Work ONLY inside $wt (source edits) and $wt-out (deliverables). Never read or write /repo or /verif. The sandbox is offline; start every shell command with \`. /tmp/wt/env.sh;\` (it puts the right Go toolchain on PATH and sets the offline flags). The first build is slow (minutes); the whole test suite (\`. /tmp/wt/env.sh; cd $wt && go test -vet=off -count=1 -timeout 90m ./...\`) takes about 10 minutes on an idle machine (internal/policy ≈ 4 min, experimental/gittuf ≈ 7 min) but the machine is shared with other jobs, so it can take 30-60 minutes: while developing a mutant run only the tests of the packages you touched and of the packages importing them; run the FULL suite exactly once per finished mutant, in the background with its output redirected to a file, and wait for it (poll with sleep); a package that only fails with 'test timed out' is load, not your change — re-run that package alone with a longer -timeout.
+Work ONLY inside $wt (source edits) and $wt-out (deliverables). Never read or write /repo or /verif. The sandbox is offline; start every shell command with \`. /tmp/wt/env.sh;\` (it puts the right Go toolchain on PATH and sets the offline flags). The first build is slow (minutes). The machine is shared with other heavy jobs and is badly overloaded, so do NOT run the whole test suite: it would take hours. Instead, for each finished mutant run the tests of (1) every package you touched and (2) the packages that import them and exercise the changed code — at least \`./internal/policy/...\`, \`./pkg/rsl/...\`, \`./pkg/gitinterface/...\`, \`./internal/attestations/...\`, \`./internal/tuf/...\` and \`./experimental/gittuf/...\` when they depend on your change (\`go list -deps\` / grep the imports to decide) — in the background with output redirected to a file and a generous \`-timeout 240m\`, and wait for them (poll with sleep). The full suite will be run later by someone else on your patch; a mutant that fails any existing test anywhere is worthless, so think about which existing tests could notice your change and run those packages. A package that only fails with 'test timed out' or a UI-timing test in internal/cmd/tui is load, not your change — re-run that package alone.
 
 Here is ONE semantic property that gittuf is supposed to satisfy (JSON record):
 
@@ -14,19 +14,19 @@ $(grep "\"id\": *\"$id\"" /verif/properties.jsonl || jq -c "select(.id==\"$id\")
 
 YOUR TASK: produce TWO independent, realistic source changes ("mutants", call them m1 and m2) to gittuf's non-test Go code, each of which BREAKS this property, while
   (a) the repository still compiles (\`go build ./...\` and \`go vet ./...\` clean for the touched packages),
-  (b) the ENTIRE existing test suite still passes unchanged (you must actually run the full suite with the mutant applied and see it pass — do not edit, delete or skip existing tests),
+  (b) the ENTIRE existing test suite still passes unchanged (run the affected packages as described above and see them pass — do not edit, delete or skip existing tests),
   (c) the breakage needs something SPECIFIC to manifest — a particular interleaving, a crash or fault at a particular point, a multi-step sequence of operations, an unusual input, or two cooperating sites that each look fine alone — NOT something ordinary use would expose at once,
   (d) the change looks like something a developer could plausibly write (a refactor gone slightly wrong, a dropped check, a swapped argument, an off-by-one, a reordered step, a missed case, an "optimisation"), is small (typically 1-15 changed lines), and m1 and m2 touch DIFFERENT mechanisms/functions of the property (read the anchors in the record for where the mechanisms live, but you may break the property anywhere in the code base).
 For each mutant also write a DEMONSTRATION: a new Go test file (placed in the appropriate package directory of the worktree, name it zz_seeded_<m1|m2>_test.go) or a small program, that FAILS with the mutant applied and PASSES on the original code. The demonstration must exercise real gittuf code (no mocks of the function under change) and its failure must be a manifestation of the property being broken, not an artificial assertion on internals.
 
 PROCEDURE
  1. Read the code the property is anchored in. Pick two mechanisms.
- 2. For each mutant: edit the source in $wt, build, run the FULL test suite (must pass), write the demo, run it with the mutant (must fail), then \`git stash\`/revert the mutant keeping the demo and run the demo again (must pass).
+ 2. For each mutant: edit the source in $wt, build, run the tests of the affected packages (must pass), write the demo, run it with the mutant (must fail), then \`git stash\`/revert the mutant keeping the demo and run the demo again (must pass).
  3. Deliver into $wt-out/m1/ and $wt-out/m2/ each:
       patch.diff   — \`git diff\` of the non-test source change only, relative to the worktree root, applicable with \`git apply\` to a clean checkout of the same commit
       demo/...     — the demonstration file(s), with the same relative path they must be placed at (e.g. demo/internal/policy/zz_seeded_m1_test.go) and
       demo_cmd.txt — the exact command (run from the repo root) that runs just the demonstration (e.g. \`go test -vet=off -count=1 -run TestSeededM1 ./internal/policy/\`)
-      README.md    — which clause of the property it breaks, what it needs in order to manifest, why the existing tests miss it, and the commands you ran with their outcome (suite pass with mutant; demo fail with mutant; demo pass without).
+      README.md    — which clause of the property it breaks, what it needs in order to manifest, why the existing tests miss it, and the commands you ran with their outcome (affected packages pass with mutant; demo fail with mutant; demo pass without).
  4. Leave the worktree clean of the mutant when done (\`git -C $wt checkout -- . \`; demo files may remain untracked). Do not commit anything.
 
 If after honest effort one mutant cannot be made to pass the full suite, replace it with a different one; if you can only deliver one, say so in $wt-out/NOTES.md. Your final message should list the mutants (file, function, one line each) and the verification outcomes.
